@@ -477,7 +477,17 @@ pub fn generate(seed: u64, fault_free: bool) -> TypedOut {
                 let mut arms: Vec<(Lv, Ex)> = Vec::new();
                 let n = 2 + g.rng.below(4);
                 for k in 0..n {
-                    let pat = match g.rng.below(17) {
+                    let pat = match g.rng.below(22) {
+                        // -x: the negation; literally e: an expression's value as a literal
+                        17 => Lv::Destructure(Box::new(var("-")), vec![lv("pa")]),
+                        18 => Lv::Lit(Box::new(var(&name))),
+                        19 => Lv::Seq(
+                            vec![Lv::Lit(Box::new(bin(int(g.rng.range(0, 3)), "+", int(1)))), Lv::Splat(Box::new(lv("pr")))],
+                            true,
+                        ),
+                        // k * x and x * k: the exact quotient, also by zero
+                        20 => Lv::Destructure(Box::new(var("*")), vec![lv("pa"), Lv::Lit(Box::new(int(g.rng.range(0, 4))))]),
+                        21 => Lv::Destructure(Box::new(var("*")), vec![Lv::Lit(Box::new(int(g.rng.range(0, 4)))), lv("pa")]),
                         // a / b: numerator and denominator
                         12 => Lv::Destructure(Box::new(var("/")), vec![lv("pa"), lv("pb")]),
                         13 => Lv::Destructure(Box::new(var("/")), vec![lv("pa"), Lv::Lit(Box::new(int(1)))]),
